@@ -554,6 +554,22 @@ fn index_boundary(acc: &mut Acc) {
             check_matches("C06", &a, variant, kind, p128, &vals, None, &h128, false, acc);
             acc.evals += 2;
             acc.nontrivial += 2;
+            // one pattern more than the type can number: the build must fail, or - if it succeeds -
+            // every match must still carry the position of its pattern
+            let mut p257 = pats.clone();
+            p257.push(if variant == Variant::Byte { vec![0xfe, 0xfe] } else { "\u{4e16}\u{4e16}".as_bytes().to_vec() });
+            if let Ok(a) = TA::<u8>::build(variant, kind, None, &p257, None) {
+                let h: Vec<u8> = p257.iter().rev().flat_map(|p| p.iter().copied()).collect();
+                for m in a.run(Method::for_kind(kind)[0], &h) {
+                    if let Some(i) = p257.iter().position(|p| p.as_slice() == &h[m.0..m.1]) {
+                        if usize::from(m.2) != i {
+                            acc.violate("C06", "types", format!("257 bare patterns with value type u8 [{} {}]: pattern #{i} is reported with value {}", variant.name(), kind.name(), m.2),
+                                json!({"value_type": "u8", "variant": variant.name(), "kind": kind.name(), "patterns": ["61"], "assignment": null, "haystack": "61", "method": "find_iter", "note": "index boundary case; re-run ./check C06 quick"}));
+                            break;
+                        }
+                    }
+                }
+            }
         }
     }
 }
